@@ -26,7 +26,7 @@ def run(chk, scratch):
     thorough = chk.tier == "thorough"
     chk.rule = ("per world: reference run (.gtf + --complete_genedb, one BAM) versus .gtf.gz, inferred genes/transcripts, pre-built .db (built with the tree's "
                 "own gtf2db, complete and inferred), cached conversion (second run under the same HOME must report the cached database) and --clean_start; "
-                "the same records split into 2-5 BAMs at random, by chromosome, and so that equal-coordinate records land in different files. "
+                "the same records split into 2-5 BAMs at random, by chromosome, and so that equal-coordinate records land in different files (one of them with its @SQ header lines in another order). "
                 "non-trivial = distinct (representation kind, #files, tie present, cache hit) tuples")
     n_worlds = 5 if thorough else 1
     for wi in range(n_worlds):
@@ -63,7 +63,8 @@ def run(chk, scratch):
                 # unmapped records are spread over the files (none in the first file of the 'twins-apart' partition)
                 um = unmapped[fi::k] if name != "twins-apart" else (unmapped if fi == k - 1 else [])
                 rs = [r for r in mapped if assign(r) == fi] + um
-                w.write_bam(p, reads=rs)
+                # the @SQ lines of the second file of the random partition are in reverse order (each file is sorted against its own header)
+                w.write_bam(p, reads=rs, chrom_order=w.chrom_order[::-1] if (name == "random3" and fi == 1) else None)
                 files.append(p)
             parts[name] = files
         rmap = {r.name: rng.randrange(3) for r in mapped}
@@ -82,6 +83,9 @@ def run(chk, scratch):
                 ("clean-start", ["-g", gtf, "--complete_genedb", "--bam", bam, "--clean_start"], "home_ref", "annotation-cache")]
         for name, files in parts.items():
             runs.append(("bam-" + name, ["-g", gtf, "--complete_genedb", "--bam"] + files, "home_" + name, "alignments"))
+        # the same comparison with the in-memory alignment storage (--high_memory): reference and split run both use it
+        runs.append(("ref-hm", ["-g", gtf, "--complete_genedb", "--high_memory", "--bam", bam], "home_ref_hm", None))
+        runs.append(("bam-random3-hm", ["-g", gtf, "--complete_genedb", "--high_memory", "--bam"] + parts["random3"], "home_random3_hm", "alignments-hm"))
         # the reference run first (it also fills the cache used by 'cached')
         outs = {}
 
@@ -124,6 +128,12 @@ def run(chk, scratch):
             kind = [r for r in runs if r[0] == name][0][3]
             wit = {"world_seed": seed, "representation": name}
             a_dir, b_dir = os.path.join(ref, pipeline.PREFIX), os.path.join(out, pipeline.PREFIX)
+            if kind is None:
+                continue
+            if kind == "alignments-hm":
+                if "ref-hm" not in outs:
+                    continue
+                a_dir = os.path.join(outs["ref-hm"], pipeline.PREFIX)
             if kind in ("annotation", "annotation-cache"):
                 for rel, why in runner.compare_trees(a_dir, b_dir):
                     chk.violation("annotation-representation-changes-output:%s:%s" % (name, rel.split(".", 1)[1] if "." in rel else rel),
